@@ -14,7 +14,7 @@ if echo "$suite" | grep -q "^FAIL\|^---\|panic"; then echo "SUITE FAILS WITH CHA
 if [ -d $src/demo ]; then
   rm -rf /tmp/vdemo-$name; cp -r $src/demo /tmp/vdemo-$name
   for target in $wt /repo; do
-    find /tmp/vdemo-$name -name go.mod -exec sed -i "s#=> /tmp/[A-Za-z0-9_-]*#=> $target#; s#=> /repo\$#=> $target#" {} \;
+    find /tmp/vdemo-$name -name go.mod -exec sed -i "s#=> /tmp/[A-Za-z0-9_/-]*#=> $target#; s#=> /repo\$#=> $target#" {} \;
     (cd /tmp/vdemo-$name && d=$(dirname $(find . -name go.mod | head -1)) && cd $d && rm -f go.sum && { if ls *_test.go >/dev/null 2>&1 || find . -name '*_test.go' | grep -q .; then go test -count=1 ./... ; else go run . ; fi; } >/tmp/vdemo-$name.out 2>&1; echo "demo against $target: exit $?")
   done
   rm -rf /tmp/vdemo-$name /tmp/vdemo-$name.out
